@@ -65,6 +65,38 @@ let rec parse_jv c : jv =
        | 's' -> JStr (bytes_of_hex rest)
        | _ -> failwith ("bad value token " ^ w))
 
+(* typed simple values: like parse_jv with I<kind>:<dec> integers *)
+let rec parse_sv c : tval =
+  skip_ws c;
+  match peek c with
+  | '[' -> adv c;
+      let rec items acc = skip_ws c; if peek c = ']' then (adv c; List.rev acc) else items (parse_sv c :: acc) in
+      VArr (items [])
+  | '{' -> adv c;
+      let rec mems acc =
+        skip_ws c;
+        if peek c = '}' then (adv c; List.rev acc)
+        else begin
+          let k = word c in
+          if String.length k = 0 || k.[0] <> 'k' then failwith "key expected";
+          let key = bytes_of_hex (String.sub k 1 (String.length k - 1)) in
+          let v = parse_sv c in
+          mems ((key, v) :: acc)
+        end in
+      VMap (mems [])
+  | _ ->
+      let w = word c in
+      if w = "" then failwith "value expected";
+      let rest = String.sub w 1 (String.length w - 1) in
+      (match w.[0] with
+       | 'n' -> VNil | 't' -> VBool true | 'f' -> VBool false
+       | 'I' -> (match String.split_on_char ':' rest with
+                 | [k; z] -> VInt (z_of_string k, z_of_string z)
+                 | _ -> failwith "bad typed int")
+       | 'd' -> VFloat (bytes_of_string rest)
+       | 's' -> VStr (bytes_of_hex rest)
+       | _ -> failwith ("bad value token " ^ w))
+
 let expect c ch = skip_ws c; if peek c <> ch then failwith (Printf.sprintf "expected %c at %d" ch c.i); adv c
 
 let opcode_of = function
